@@ -61,8 +61,7 @@ fn run_session(c: &WsCase) -> Observed {
             };
             let addr = listener.local_addr().unwrap();
             let script = c.messages.clone();
-            let codec0 = Codec::new(MODE);
-            let expect_writes = if c.raw_read_sizes.is_some() { 0 } else { c.writes.iter().filter(|f| decode_one(f, &MODE).map(|p| codec0.encode(&p).is_ok()).unwrap_or(false)).count() };
+            let expect_writes = if c.raw_read_sizes.is_some() { 0 } else { c.writes.iter().filter(|f| decode_one(f, &MODE).map(|p| Codec::new(MODE).encode(&p).is_ok()).unwrap_or(false)).count() };
             let server = tokio::spawn(async move {
                 let (stream, _) = listener.accept().await.ok()?;
                 let mut ws = tokio_tungstenite::accept_async(stream).await.ok()?;
@@ -215,8 +214,8 @@ pub fn judge(c: &WsCase, ev: &mut Local) -> Result<(), Fail> {
     }
     // writes: exactly one binary message per packet, equal to its frame (keep-alive replies may follow later)
     if c.raw_read_sizes.is_none() {
-        let codec = Codec::new(MODE);
-        let want_out: Vec<Msg> = c.writes.iter().filter_map(|f| decode_one(f, &MODE).ok()).filter_map(|p| codec.encode(&p).ok()).map(|b| Msg::Binary(b.to_vec())).collect();
+        // a fresh codec per packet: the expected messages are independent encodings
+        let want_out: Vec<Msg> = c.writes.iter().filter_map(|f| decode_one(f, &MODE).ok()).filter_map(|p| Codec::new(MODE).encode(&p).ok()).map(|b| Msg::Binary(b.to_vec())).collect();
         let got: Vec<Msg> = o.server_saw.iter().take(want_out.len()).cloned().collect();
         ensure!(got == want_out, "c20:write-not-one-binary-message", "{} packets written; the server saw {:?}", want_out.len(), o.server_saw.iter().take(want_out.len() + 2).map(|m| format!("{m:?}").chars().take(60).collect::<String>()).collect::<Vec<_>>());
         // replies to keep-alives are whole frames, one per message
@@ -403,8 +402,7 @@ impl Part for BackPressure {
         use std::sync::Arc;
         let rt = tokio::runtime::Builder::new_current_thread().enable_all().build().expect("runtime");
         let c2 = c.clone();
-        let codec = Codec::new(MODE);
-        let expected: Vec<Vec<u8>> = (0..c.packets).map(|i| codec.encode(&pressure_packet(i, c.lens[i % c.lens.len()])).unwrap().to_vec()).collect();
+        let expected: Vec<Vec<u8>> = (0..c.packets).map(|i| Codec::new(MODE).encode(&pressure_packet(i, c.lens[i % c.lens.len()])).unwrap().to_vec()).collect();
         let out = guard(move || {
             rt.block_on(async move {
                 let listener = tokio::net::TcpListener::bind("127.0.0.1:0").await.map_err(|e| format!("bind: {e}"))?;
